@@ -273,8 +273,28 @@ pub fn pull(
                     return Ok((SessionEnd::Err("stuck after cut".into()), s));
                 }
             } else {
+                let mut diag = format!(
+                    "stuck inflight(p)={} held(p)={} inflight(s)={} threads(p)={} trace={}",
+                    dv::inflight_now(puller.idx),
+                    dv::held_now(puller.idx),
+                    dv::inflight_now(server.idx),
+                    dv::live_threads(puller.idx),
+                    s.trace.join(" ")
+                );
+                if std::env::var("DSIM_DIAG").is_ok() {
+                    // which service of the puller is not answering?
+                    let q = puller.query("query { Person{ id } }", None).map(|_| ());
+                    diag.push_str(&format!(" | probe query={q:?}"));
+                    let sv = puller.services.clone().unwrap();
+                    let v = puller.run(async move { sv.signature_verification.verify_nodes(vec![]).await.is_ok() });
+                    diag.push_str(&format!(" verify={v:?}"));
+                    let db = puller.dbh();
+                    let w = puller.run(async move { db.add_peer_nodes(vec![]).await.is_ok() });
+                    diag.push_str(&format!(" write={w:?}"));
+                    diag.push_str(&format!(" inflight after={}", dv::inflight_now(puller.idx)));
+                }
                 s.abandon();
-                return Ok((SessionEnd::Err("stuck".into()), s));
+                return Ok((SessionEnd::Err(diag), s));
             }
         }
     }
